@@ -71,6 +71,8 @@ class NdO:
             return sm
         if attr == "copy":
             return lambda ex_: NdO(self.a.copy())
+        if attr == "reshape":
+            return lambda ex_, *shape: NdO(self.a.reshape(*[tuple(x) if isinstance(x, (list, tuple)) else x for x in shape]))
         raise Unsupported(f"attribute {attr} of an object array")
 
     def pyvc_neg(self, ex):
@@ -189,3 +191,61 @@ class ToTimings(Unit):
                         idle = (sl.f["run"].a[e, p] == False and same(sl.f["seq"].a[e, p], 0) and same(sl.f["ts_start"].a[e, p], 0) and same(sl.f["ts_end"].a[e, p], 0)
                                 and all(same(sl.f["windows"][n1].f["seq"].a[e, p, j], -1) for n1 in v.f["windows"] for j in range(W)))
                         ctx.ensure(f"C07 slot {s}, episode {e}, partition {p}: nothing is mapped here - masked (run false, seq 0, window entries -1)", z3.BoolVal(bool(idle)))
+
+
+class WindowedToGraph(Unit):
+    """WindowedGraph.to_graph (the graph the supergraph is grown from): every (step, window entry) of every connection becomes one edge producer message -> consuming step, so that
+    EVERY producer in a step's window precedes that step - not only the newest or the oldest one. Enumerated shape (2 episodes x 3 steps x window 2 / 3), symbolic contents."""
+    name = "WindowedGraph.to_graph"
+    target = BASE + "::WindowedGraph.to_graph"
+    props = ("C07",)
+
+    def configs(self):
+        yield "window 2", dict(E=2, N=3, W=2)
+        yield "window 3, one episode", dict(E=1, N=2, W=3)
+        yield "window 1", dict(E=2, N=3, W=1)
+
+    def run(self, ctx):
+        ex, cfg = ctx.ex, ctx.cfg
+        E, N, W = cfg["E"], cfg["N"], cfg["W"]
+        jnp = ex.lib.ns["jax.numpy"]
+        saved = jnp.entries.get("repeat")
+        jnp.entries["repeat"] = lambda ex_, x, k, axis=None: NdO(np.repeat(x.a, k, axis=axis)) if isinstance(x, NdO) else (_ for _ in ()).throw(Unsupported("repeat"))
+        sym = lambda tag, sort, shape: NdO(np.array([z3.Const(f"{tag}[{','.join(map(str, ix))}]", sort) for ix in np.ndindex(*shape)], dtype=object).reshape(shape))
+        mkwin = lambda tag: Rec("Window", dict(seq=sym(f"{tag}.seq", INT, (E, N, W)), ts_sent=sym(f"{tag}.ts_sent", REAL, (E, N, W)), ts_recv=sym(f"{tag}.ts_recv", REAL, (E, N, W))), module=BASE, frozen=True)
+        mkv = lambda k, wins: Rec("WindowedVertex", dict(seq=sym(f"{k}.seq", INT, (E, N)), ts_start=sym(f"{k}.ts_start", REAL, (E, N)), ts_end=sym(f"{k}.ts_end", REAL, (E, N)), windows=wins), module=BASE, frozen=True)
+        verts = {"a": mkv("a", {}), "b": mkv("b", {"a": mkwin("b<-a")}), "c": mkv("c", {"b": mkwin("c<-b"), "a": mkwin("c<-a")})}
+        wg = Rec("WindowedGraph", dict(vertices=verts), module=BASE, frozen=True)
+        try:
+            g = ctx.call(self_obj=wg)
+        except RaiseEx as e:
+            ctx.ensure(f"returns a graph (raised {e.exc})", z3.BoolVal(False))
+            return
+        finally:
+            if saved is not None:
+                jnp.entries["repeat"] = saved
+            else:
+                jnp.entries.pop("repeat", None)
+        ok = isinstance(g, Rec) and g.cls == "Graph"
+        ctx.ensure("returns a Graph", z3.BoolVal(ok))
+        if not ok:
+            return
+        ctx.ensure("C07 the vertices are the windowed vertices' own seq / ts_start / ts_end arrays", z3.BoolVal(set(g.f["vertices"]) == set(verts) and all(g.f["vertices"][k].f[f] is verts[k].f[f] for k in verts for f in ("seq", "ts_start", "ts_end"))))
+        conns = {(n1, n2) for n2, v in verts.items() for n1 in v.f["windows"]}
+        ctx.ensure("C07 one edge set per windowed connection (producer, consumer)", z3.BoolVal(set(g.f["edges"]) == conns))
+        for (n1, n2) in sorted(conns & set(g.f["edges"])):
+            e, w, v2 = g.f["edges"][(n1, n2)], verts[n2].f["windows"][n1], verts[n2]
+            ok_shape = all(isinstance(e.f[k], NdO) and e.f[k].a.ndim == 2 and e.f[k].a.shape == e.f["seq_out"].a.shape and e.f[k].a.shape[0] == E for k in ("seq_out", "seq_in", "ts_recv"))
+            ctx.ensure(f"C07 {n1}->{n2}: the three edge arrays are (episodes x edges) and equally long", z3.BoolVal(ok_shape))
+            if not ok_shape:
+                continue
+            K = e.f["seq_out"].a.shape[1]
+            have = {ep: [(e.f["seq_out"].a[ep, t], e.f["seq_in"].a[ep, t], e.f["ts_recv"].a[ep, t]) for t in range(K)] for ep in range(E)}
+            same = lambda x, y: z3.eq(toz(x), toz(y))
+            # window entries are stored oldest first and a producer's steps are chained, so an edge from entry j' >= j into the step also puts entry j before it (C07 asks for
+            # the order, not for one edge per entry: a change that keeps only the NEWEST entry's edge is fine, one that keeps only the oldest is not)
+            good = all(any(same(si, v2.f["seq"].a[ep, st]) and any(same(so, w.f["seq"].a[ep, st, j2]) and same(tr, w.f["ts_recv"].a[ep, st, j2]) for j2 in range(j, W)) for (so, si, tr) in have[ep])
+                       for ep in range(E) for st in range(N) for j in range(W))
+            ctx.ensure(f"C07 {n1}->{n2}: every message in a step's window precedes that step in the graph the schedule is grown from: it, or a newer message of the same window, is an edge into exactly that step (with its own receive time)", z3.BoolVal(good))
+            nothing_else = all(any(same(so, w.f["seq"].a[ep, st, j]) and same(si, v2.f["seq"].a[ep, st]) for st in range(N) for j in range(W)) for ep in range(E) for (so, si, tr) in have[ep])
+            ctx.ensure(f"C07 {n1}->{n2}: and there is no other edge", z3.BoolVal(nothing_else))
